@@ -16,6 +16,7 @@ import (
 )
 
 type gor struct {
+	vc      vclock
 	id      int
 	wake    chan struct{}
 	waiting func() bool // nil = runnable
@@ -26,6 +27,11 @@ type gor struct {
 
 func (i *interpreter) spawn(fr *frame, pos token.Pos, fn value, args []value) {
 	g := &gor{id: len(i.gors), wake: make(chan struct{}), parked: true}
+	if i.opts.RaceMonitor && fr != nil && fr.g != nil {
+		g.vc = fr.g.clock().copy() // everything the parent did so far happens before the child
+		g.vc[g.id] = 1
+		fr.g.tick()
+	}
 	i.gors = append(i.gors, g)
 	i.wg.Add(1)
 	go func() {
@@ -157,12 +163,13 @@ func (i *interpreter) yield(g *gor) {
 	if len(c) == 0 {
 		return
 	}
-	if !i.opts.Sched {
+	if !i.opts.Sched || i.schedBudget <= 0 {
 		// default policy: let the others run (a sleeping goroutine waits for them)
 		i.switchTo(g, c[0])
 		return
 	}
-	all := append([]*gor{g}, c...)
+	// choice 0 is the default policy; staying on g is the last alternative
+	all := append(append([]*gor{}, c...), g)
 	next := i.pick(all)
 	i.switchTo(g, next)
 }
@@ -222,6 +229,7 @@ func chanSend(fr *frame, ch value, v value) {
 		panic(targetPanic{iface{t: types.Typ[types.String], v: "send on closed channel"}})
 	}
 	v = copyVal(v)
+	i.hbRelease(fr.g, c)
 	if len(c.buf) < c.cap {
 		c.buf = append(c.buf, v)
 		return
@@ -246,6 +254,7 @@ func chanRecv(fr *frame, ch value, elem types.Type, commaOk bool) value {
 		c.recvWait--
 	}
 	v, ok := c.doRecv()
+	i.hbAcquire(fr.g, c)
 	if commaOk {
 		return tuple{v, ok}
 	}
@@ -260,6 +269,7 @@ func chanClose(fr *frame, ch value) {
 	if c.closed {
 		panic(targetPanic{iface{t: types.Typ[types.String], v: "close of closed channel"}})
 	}
+	fr.i.hbRelease(fr.g, c)
 	c.closed = true
 }
 
@@ -318,9 +328,11 @@ func selectOp(fr *frame, instr *ssa.Select) value {
 			if x.c.closed {
 				panic(targetPanic{iface{t: types.Typ[types.String], v: "send on closed channel"}})
 			}
+			i.hbRelease(fr.g, x.c)
 			x.c.buf = append(x.c.buf, copyVal(x.v))
 		} else {
 			recvVal, recvOk = x.c.doRecv()
+			i.hbAcquire(fr.g, x.c)
 		}
 	}
 	r[1] = recvOk
@@ -368,15 +380,18 @@ func mutexLock(fr *frame, p *value, write bool) {
 	if write {
 		fr.i.block(g, "Lock", func() bool { return l.writer == nil && totalReaders(l) == 0 })
 		l.writer = g
+		fr.i.hbAcquire(g, p)
 	} else {
 		fr.i.block(g, "RLock", func() bool { return l.writer == nil })
 		l.readers[g]++
+		fr.i.hbAcquire(g, p)
 	}
 	fr.i.yield(g)
 }
 
 func mutexUnlock(fr *frame, p *value, write bool) {
 	l := fr.i.lockOf(p)
+	fr.i.hbRelease(fr.g, p)
 	if write {
 		if l.writer == nil {
 			panic(targetPanic{iface{t: types.Typ[types.String], v: "fatal error: sync: unlock of unlocked mutex"}})
@@ -399,4 +414,119 @@ func mutexUnlock(fr *frame, p *value, write bool) {
 		}
 	}
 	fr.i.yield(fr.g)
+}
+
+// ---- happens-before (vector clock) race monitor on Go maps ----
+//
+// Every interpreted goroutine carries a vector clock; spawn, channel
+// send->receive, close->receive, mutex release->acquire and WaitGroup
+// Done->Wait create happens-before edges. Two accesses to one Go map from
+// different goroutines, at least one a write, that are not ordered by
+// happens-before are a data race under some native interleaving (the
+// cooperative scheduler itself never runs them simultaneously).
+
+type vclock map[int]int
+
+func (v vclock) copy() vclock {
+	c := vclock{}
+	for k, x := range v {
+		c[k] = x
+	}
+	return c
+}
+
+func (v vclock) join(o vclock) {
+	for k, x := range o {
+		if x > v[k] {
+			v[k] = x
+		}
+	}
+}
+
+func (g *gor) clock() vclock {
+	if g.vc == nil {
+		g.vc = vclock{g.id: 1}
+	}
+	return g.vc
+}
+
+func (g *gor) tick() { g.clock()[g.id]++ }
+
+// release publishes g's clock into a synchronisation object's clock.
+func (i *interpreter) hbRelease(g *gor, obj interface{}) {
+	if !i.opts.RaceMonitor {
+		return
+	}
+	if i.syncVC == nil {
+		i.syncVC = map[interface{}]vclock{}
+	}
+	c := i.syncVC[obj]
+	if c == nil {
+		c = vclock{}
+		i.syncVC[obj] = c
+	}
+	c.join(g.clock())
+	g.tick()
+}
+
+// acquire joins a synchronisation object's clock into g's.
+func (i *interpreter) hbAcquire(g *gor, obj interface{}) {
+	if !i.opts.RaceMonitor || i.syncVC == nil {
+		return
+	}
+	if c := i.syncVC[obj]; c != nil {
+		g.clock().join(c)
+	}
+}
+
+type accessState struct {
+	lastWriteG   int
+	lastWriteC   int
+	lastWriteFn  string
+	reads        map[int]int
+	reported     bool
+}
+
+func (i *interpreter) noteMapAccess(fr *frame, m *omap, write bool) {
+	if i.mapAcc == nil {
+		i.mapAcc = map[*omap]*accessState{}
+	}
+	g := fr.g
+	vc := g.clock()
+	st := i.mapAcc[m]
+	if st == nil {
+		st = &accessState{lastWriteG: -1, reads: map[int]int{}}
+		i.mapAcc[m] = st
+	}
+	race := ""
+	if st.lastWriteG >= 0 && st.lastWriteG != g.id && st.lastWriteC > vc[st.lastWriteG] {
+		race = fmt.Sprintf("write by g%d in %s", st.lastWriteG, st.lastWriteFn)
+	}
+	if write && race == "" {
+		for rg, rc := range st.reads {
+			if rg != g.id && rc > vc[rg] {
+				race = fmt.Sprintf("read by g%d", rg)
+			}
+		}
+	}
+	if race != "" && !st.reported {
+		st.reported = true
+		site := m.site
+		where := ""
+		if fr.fn != nil {
+			where = fr.fn.String()
+		}
+		i.tags["race-site"] = site + " accessed in " + where
+		i.violation("race", "unsynchronised-shared-map", fmt.Sprintf("map created in %s: access (write=%v) by g%d in %s is not ordered after the %s", site, write, g.id, where, race), nil)
+		delete(i.tags, "race-site")
+	}
+	if write {
+		st.lastWriteG, st.lastWriteC = g.id, vc[g.id]
+		if fr.fn != nil {
+			st.lastWriteFn = fr.fn.String()
+		}
+		st.reads = map[int]int{}
+	} else {
+		st.reads[g.id] = vc[g.id]
+	}
 }
